@@ -158,14 +158,24 @@ def assert_untouched(what, now, before, tags):
                         f"modified in place", tags)
 
 
+# flat Nx3 sets start at N = 4: the smallest set that determines a map of every class (an affine map
+# has 12 unknowns, a swatch gives 3 equations), where the fit interpolates instead of regressing;
+# make_swatches keeps the centred singular values independent of N, so these sets are as well
+# conditioned as the big ones
+N_MIN = 4
+
+
 @st.composite
 def swatch_specs(draw):
     layout = draw(st.sampled_from(["4x6", "flat"]))
-    n = 24 if layout == "4x6" else draw(st.integers(6, 40))
+    n = 24 if layout == "4x6" else draw(st.one_of(st.sampled_from([N_MIN, N_MIN, N_MIN + 1]),
+                                                  st.integers(6, 40), st.integers(6, 40)))
     return {"layout": layout, "N": n, "pseed": draw(st.integers(0, 2**20))}
 
 
 def _sw_labels(sw):
+    if sw["layout"] == "flat" and sw["N"] <= 7:
+        return (sw["layout"], "N-minimal" if sw["N"] == N_MIN else "N-small")
     return (sw["layout"],)
 
 
@@ -215,7 +225,8 @@ def enum_exact(tier):
     for k in range(2 if tier == "quick" else 16):
         for variant in VARIANTS:
             for truth in ("same", "smaller", "bigger", "offset", "identity"):
-                for layout, n in (("4x6", 24), ("flat", 6 + 5 * k)):
+                # flat sets: the exactly determining set first, then growing ones
+                for layout, n in (("4x6", 24), ("flat", N_MIN if k == 0 else 6 + 5 * k)):
                     out.append({"sw": {"layout": layout, "N": n, "pseed": 1000 + k}, "variant": variant,
                                 "truth": truth, "mseed": 77 + k})
     return out
@@ -443,6 +454,102 @@ def check_residual(case):
 
 
 # ---------------------------------------------------------------------------------------
+# 2b. a balance object used for a sequence of fits
+# ---------------------------------------------------------------------------------------
+
+# ground truth of a step: a generic member of the class, a member of the next smaller class, a pure
+# colour shift (affine class; the identity for the others), the identity map (destinations equal to
+# the sources), or the map of the previous step once more (the search then starts at the optimum)
+STEP_TRUTHS = ("generic", "smaller", "offset", "identity", "repeat")
+
+
+def gen_refit(tier):
+    step = st.fixed_dictionaries({
+        "truth": st.sampled_from(["generic", "generic", "smaller", "offset", "identity", "identity", "repeat"]),
+        # swatch set of the step: equal numbers = the same swatches again
+        "set": st.integers(0, 2),
+    })
+    return st.fixed_dictionaries({
+        "sw": swatch_specs(),
+        "cls": st.sampled_from(["white", "color", "color", "affine", "affine"]),
+        "form": st.sampled_from(["find", "find", "call"]),
+        "steps": st.lists(step, min_size=2, max_size=4),
+        "mseed": st.integers(0, 2**20),
+    })
+
+
+def check_refit_sequence(case):
+    """One balance object fitted to a sequence of swatch sets / exact maps of its class (re-fitting
+    an object is the documented use: the search starts at the current balance): after *every* fit,
+    applying the balance to the sources of that fit reproduces its destinations within optimiser
+    tolerance - whatever the object was fitted to before and whatever the new ground truth is
+    (also the identity map, or the map it already carries) -, maps other colours like the ground
+    truth, and the fit does not end above the residual it started from."""
+    sw, cls = case["sw"], case["cls"]
+    mode = VMODE[cls]
+    rng = np.random.default_rng(case["mseed"])
+    bal = PLAIN[mode]()
+    img = rng.integers(0, 9, size=(3, 4, 3)) / 8.0
+    tags = {"cls": cls, "mode": mode, "form": case["form"], "layout": sw["layout"]}
+    a, b = np.eye(3), np.zeros(3)
+    labels, structs = set(), []
+    n = 0
+    for k, step in enumerate(case["steps"]):
+        src = make_swatches({**sw, "pseed": sw["pseed"] + 7919 * step["set"]})
+        truth = step["truth"]
+        if truth == "repeat" and k == 0:
+            truth = "generic"
+        if truth == "smaller":
+            a, b = make_map(rng, MODES[max(MODES.index(mode) - 1, 0)])
+        elif truth != "repeat":
+            a, b = make_map(rng, mode, truth)
+            truth = eff_struct(mode, truth)
+        dst = ref_apply(src, a, b)
+        x0 = stage_params(bal)
+        used = "fresh" if k == 0 else ("at-identity" if np.array_equal(x0[0], np.eye(3)) and not np.any(x0[1])
+                                       else "used")
+        tags.update({"step": k + 1, "truth": truth, "object": used})
+        src0, dst0 = src.copy(), dst.copy()
+        r0 = residual(bal, src, dst)
+        if case["form"] == "call":
+            got_img = np.asarray(bal(img, src, dst))
+        else:
+            bal.find_balance(src, dst)
+            got_img = np.asarray(bal.apply_balance(img))
+        n += 1
+        assert_untouched("source-swatches", src, src0, tags)
+        assert_untouched("destination-swatches", dst, dst0, tags)
+        r1 = residual(bal, src, dst)
+        if not r1 <= r0 + 1e-12 * (1.0 + r0):
+            raise Violation(f"refit-residual-increased:{cls}", f"fit {k + 1} of a sequence on one {cls} "
+                            f"balance object ({truth} map): residual {r0!r} -> {r1!r}", tags)
+        got = np.asarray(bal.apply_balance(src))
+        err = float(np.abs(got - dst).max()) if got.shape == dst.shape else float("inf")
+        if not err <= TOL_FIT:
+            ra, rb = ref_fit(mode, src, dst, x0)
+            ref_err = float(np.abs(ref_apply(src, ra, rb) - dst).max())
+            if not ref_err <= TOL_FIT:
+                return Outcome(False, status="skipped", labels=("optimiser-stalled",))
+            raise Violation(f"refit-not-recovered:{mode}",
+                            f"fit {k + 1} of a sequence on one {cls} balance object ({used} before this fit) "
+                            f"to an exact {truth} map: max |apply(src) - dst| = {err:.3e}, residual "
+                            f"{r0:.3e} -> {r1:.3e} (tol {TOL_FIT:.1e}; an independent Powell run started at "
+                            f"the same balance reaches {ref_err:.1e})", tags)
+        want = ref_apply(img, a, b)
+        e2 = float(np.abs(got_img - want).max()) if got_img.shape == want.shape else float("inf")
+        if not e2 <= 40 * TOL_FIT:
+            raise Violation(f"refit-image-not-mapped:{mode}",
+                            f"fit {k + 1} of a sequence on one {cls} balance object ({truth} map): an image "
+                            f"passed through the balance differs from the ground truth by {e2:.3e}", tags)
+        labels.add(f"{used}-then-{truth}")
+        structs.append(truth)
+    return Outcome(nontrivial=any(lab.startswith("used-then-") for lab in labels),
+                   key=[sw, cls, case["form"], [[s["truth"], s["set"]] for s in case["steps"]], case["mseed"]],
+                   labels=_sw_labels(sw) + (cls, f"form-{case['form']}", f"fits{len(case['steps'])}")
+                   + tuple(sorted(labels)), evals=n)
+
+
+# ---------------------------------------------------------------------------------------
 # 3. staged_equals_sequential
 # ---------------------------------------------------------------------------------------
 
@@ -474,7 +581,7 @@ def enum_staged(tier):
     for k in range(1 if tier == "quick" else 8):
         for i, modes in enumerate(_all_orders()):
             # quick tier: one layout per order (alternating), thorough: both
-            for j, (layout, n) in enumerate((("4x6", 24), ("flat", 12 + 3 * k))):
+            for j, (layout, n) in enumerate((("4x6", 24), ("flat", N_MIN if i % 4 == 1 else 12 + 3 * k))):
                 if tier == "quick" and j != i % 2:
                     continue
                 out.append({"sw": {"layout": layout, "N": n, "pseed": 2000 + k}, "modes": modes,
@@ -490,7 +597,7 @@ def enum_composed(tier):
     out = []
     for k in range(1 if tier == "quick" else 8):
         for i, modes in enumerate(_all_orders()):
-            layout, n = (("4x6", 24), ("flat", 10 + 2 * k))[(i + k) % 2]
+            layout, n = (("4x6", 24), ("flat", N_MIN if (i + k) % 4 == 1 else 10 + 2 * k))[(i + k) % 2]
             out.append({"scenario": "chain", "sw": {"layout": layout, "N": n, "pseed": 3000 + k},
                         "modes": modes, "second_on": "all", "structs": ["generic"] * 3, "mseed": 900 + 5 * k + i})
     return out
@@ -706,8 +813,9 @@ def check_row_vector(case):
                    labels=(cls, f"ndim{len(case['shape'])}", case["values"], f"matrix-{case['matrix']}"))
 
 
-_RULE = ("Hypothesis draws the swatch layout (4x6x3 chart or flat Nx3, N 6..40), the balance class / "
-         "ordered list of 1-3 staged modes, the start state and integer seeds; swatches = offset + "
+_RULE = ("Hypothesis draws the swatch layout (4x6x3 chart or flat Nx3, N 4..40), the balance class / "
+         "ordered list of 1-3 staged modes, the start state and integer seeds (flat sets from N = 4, the "
+         "smallest set determining a map of every class, upwards); swatches = offset + "
          "orthonormal frame x singular values in [0.3,1] (cond <= ~20), ground-truth maps near the "
          "identity (D = I +- 0.3, A = I + 0.15 U(-1,1), |b| <= 0.1) including the structured members "
          "of the classes (pure colour shift A = I, b != 0; the identity map; matrices within 2^-28 of "
@@ -719,6 +827,8 @@ _RULE = ("Hypothesis draws the swatch layout (4x6x3 chart or flat Nx3, N 6..40),
          "ColorCorrection with every subset of its balancing options left to their defaults, on uint8 / "
          "uint16 / float32 / float64 photographs; one ColorCorrection object applied to sequences of "
          "2-3 checker images (same / drift below an 8-bit step / illumination change / unrelated); "
+         "one plain balance object fitted 2-4 times in a row (same / other swatches; generic, smaller-class, "
+         "pure-shift, identity or repeated ground truth), every fit checked; "
          "non-trivial = a non-symmetric "
          "ground-truth / stage matrix (|A - A^T| > 0.05), a non-commuting stage list, or a fit not "
          "started from the identity; distinct = (swatch spec, class / modes, seeds)")
@@ -1009,6 +1119,9 @@ PROP = Prop(
         "seed (4 float32 ulps: Powell is deterministic, only the rounding of the composition and the "
         "final float32 cast remain); omitted options take whitebalancing=True (documented), "
         "colorbalancing='affine', balancing='darsia' (attribute docstrings / code defaults)",
+        "a re-used balance object: every fit of a sequence must reproduce its exactly representable "
+        "destinations to 1e-6 (a miss is reported only if the reference Powell run started at the balance "
+        "the object carried before that fit reaches the tolerance) and must not end above its start residual",
         "find_balance / apply_balance / the callable form do not modify the arrays they are given "
         "(ColorCorrection hands them views of its stored reference swatches and the caller's image)",
     ],
@@ -1019,6 +1132,8 @@ PROP = Prop(
             shards={"quick": 4, "thorough": 16}),
         Sub("residual_never_increases", check_residual, gen=gen_residual,
             n={"quick": 320, "thorough": 8000}, shards={"quick": 4, "thorough": 16}),
+        Sub("refit_sequence_recovers_each_map", check_refit_sequence, gen=gen_refit,
+            n={"quick": 120, "thorough": 4000}, shards={"quick": 4, "thorough": 16}),
         Sub("staged_equals_sequential", check_staged_equals_sequential, gen=gen_staged,
             n={"quick": 120, "thorough": 4000}, shards={"quick": 4, "thorough": 16}),
         Sub("staged_equals_sequential_each_order", check_staged_equals_sequential, enum=enum_staged,
